@@ -274,6 +274,7 @@ impl LangInterpreter for French {
                 // the scratch builder must not carry digits over from an earlier probe
                 b.reset();
                 if previous_text != "numéro"
+                    && !self.is_decimal_sep(previous_text)
                     && self.apply(previous_text, &mut b).is_err()
                     && self.apply(next_text, &mut b).is_err()
                 {
